@@ -231,7 +231,8 @@ func VerifC13_History(cs int) {
 		if crashed {
 			// a traversal crashed on a dangling reference that an earlier edit created
 			// (for example a CHIL line whose individual record was deleted): that is C14's subject
-			VsReach("operation-crashed-on-dangling-reference")
+			// (none does since the C14 repairs; a crash would be reported by the C14 check, here the
+			// history simply ends)
 			return
 		}
 		textAfter := doc.String()
